@@ -343,6 +343,16 @@ func ruleGARGS(p *Program, r *Reporter) {
 		return
 	}
 	args := fn.Params[2]
+	// the whole handler body, argument checks included, may live in a private helper
+	// that still receives the raw argument list
+	if body, via := serverTransactBody(p); via != nil {
+		for _, prm := range body.Params {
+			if types.Identical(prm.Type(), args.Type()) {
+				fn, args = body, prm
+				break
+			}
+		}
+	}
 	var call *ssa.Call
 	for _, b := range fn.Blocks {
 		for _, ins := range b.Instrs {
